@@ -41,3 +41,11 @@ MANIFEST_TEXT["C01"] = {
     "technique": "runtime monitoring: program-fuzzing with an invariant oracle on public output under ASan+UBSan",
     "design_ref": "DESIGN.md 4 C01",
 }
+
+# ---------------------------------------------------------------------------
+# per-property modules lib/checks_cNN.py define CHECK (spec) and TEXT (manifest text)
+import glob as _glob, importlib as _importlib, os as _os
+for _f in sorted(_glob.glob(_os.path.join(_os.path.dirname(_os.path.abspath(__file__)), "checks_c*.py"))):
+    _m = _importlib.import_module(_os.path.basename(_f)[:-3])
+    CHECKS[_m.CHECK["id"]] = _m.CHECK
+    MANIFEST_TEXT[_m.CHECK["id"]] = _m.TEXT
